@@ -429,9 +429,14 @@ async def observe(w):
         obs["miss_t"] = sorted(str(t) for t in wf.targets if not wf.is_regular_output(t))
         obs["miss_d"] = sorted(str(t) for t in wf.target_dirs if not wf.has_regular_output_under(t))
     rec = Recorder()
-    rc = await report_unbuilt(wf, w.sched, ReporterClient(rec))
-    obs["rc"] = rc.value
-    obs["rc_name"] = str(rc)
+    try:
+        rc = await report_unbuilt(wf, w.sched, ReporterClient(rec))
+        obs["rc"] = rc.value
+        obs["rc_name"] = str(rc)
+    except Exception as e:  # noqa: BLE001 - the end-of-build report itself failed: reported with the plan as witness
+        obs["rc"], obs["rc_name"] = -1, f"report_unbuilt raised {type(e).__name__}"
+        if obs["error"] is None:
+            obs["error"] = f"{type(e).__name__}: {e} (in report_unbuilt)"
     obs["reports"] = [(t, d) for t, d, _ in rec.reports]
     obs["pages"] = [(t, d, p) for t, d, p in rec.reports]
     obs["draining"] = bool(w.sched.draining)
@@ -626,14 +631,18 @@ def correspondence(ctx):
         results = run(_run_plans(ctx, plans))
     ctx.results = results
     checks, index = [], []
+    raised_seen = set()
     for k, (plan, obs) in enumerate(results):
         for a in obs["applied"]:
             parts = a.split(":")
             ctx.count("op:" + (parts[1] + ":rejected:" + parts[2] if parts[0] == "rejected" else parts[0]))
         if obs["error"] is not None:
-            ctx.add_failure("correspondence", "analyze_pending-raises",
-                            f"analyze_pending:raises:{obs['error'].split(':')[0]}",
-                            f"real analyze_pending raised {obs['error']}", witness={"plan": plan})
+            sig = f"analyze_pending:raises:{obs['error'].split(':')[0]}"
+            ctx.count(sig)
+            if sig not in raised_seen:
+                raised_seen.add(sig)
+                ctx.add_failure("correspondence", "analyze_pending-raises", sig,
+                                f"the real end-of-build analysis raised {obs['error']}", witness={"plan": plan})
             continue
         sn, parts = check_term(obs)
         checks.append(f"let sn := {sn} in forallb (fun b : bool => b) {coq_list(parts)}")
@@ -1266,5 +1275,8 @@ def replay(ctx, obj):
         res = run(_run_plans(ctx, [plan]))
     for plan, obs in res:
         print("replayed: rc =", obs["rc_name"], "reports =", obs["reports"])
+        if obs["error"]:
+            ctx.add_failure("oracle", "analyze_pending-raises", f"analyze_pending:raises:{obs['error'].split(':')[0]}",
+                            f"the real end-of-build analysis raised {obs['error']}", witness={"plan": plan})
         for sig, detail in oracle_case(ctx, plan, obs):
             ctx.add_failure("oracle", sig.split(":")[0], sig, detail, witness={"plan": plan, "rc": obs["rc_name"]})
